@@ -134,6 +134,37 @@ func c01Case(c fileCase, viol func(sig, detail string), r *core.Run) {
 					viol("stream "+how+" "+c.Writer, fmt.Sprintf("%s buf=%d: err=%v got %s want %s", c, b, err, clip(got, 24), clip(content, 24)))
 					return
 				}
+				// the same reader, used: it still reports the length, and
+				// rewound it streams the whole content again (what
+				// http.ServeContent does: sniff, seek to the end, seek to the
+				// start, copy)
+				if end, err := rs.Seek(0, io.SeekEnd); err != nil || end != int64(len(content)) {
+					viol("seek-end-used-reader "+how+" "+c.Writer, fmt.Sprintf("%s buf=%d: after a full read Seek(0,End)=(%d,%v) want %d", c, b, end, err, len(content)))
+				}
+				if pos, err := rs.Seek(0, io.SeekStart); err != nil || pos != 0 {
+					viol("rewind "+how+" "+c.Writer, fmt.Sprintf("%s buf=%d: Seek(0,Start)=(%d,%v)", c, b, pos, err))
+				}
+				got, err = readAllBuf(rs, b, 4*len(content)+16)
+				if err != nil || !bytes.Equal(got, content) {
+					viol("stream-after-rewind "+how+" "+c.Writer, fmt.Sprintf("%s buf=%d: second pass err=%v got %s want %s", c, b, err, clip(got, 24), clip(content, 24)))
+					return
+				}
+				// sniff a prefix, ask for the length, rewind, stream
+				rs2, err := lb.AsLargeBytes()
+				if err != nil {
+					return
+				}
+				sniff := make([]byte, b)
+				io.ReadFull(rs2, sniff)
+				if end, err := rs2.Seek(0, io.SeekEnd); err != nil || end != int64(len(content)) {
+					viol("seek-end-used-reader "+how+" "+c.Writer, fmt.Sprintf("%s buf=%d: after a %d-byte read Seek(0,End)=(%d,%v) want %d", c, b, b, end, err, len(content)))
+				}
+				rs2.Seek(0, io.SeekStart)
+				got, err = readAllBuf(rs2, b, 4*len(content)+16)
+				if err != nil || !bytes.Equal(got, content) {
+					viol("stream-after-sniff-and-rewind "+how+" "+c.Writer, fmt.Sprintf("%s buf=%d: err=%v got %s want %s", c, b, err, clip(got, 24), clip(content, 24)))
+					return
+				}
 			}
 		})
 		if panicked {
@@ -217,6 +248,7 @@ func c01Concurrent(r *core.Run) {
 	r.Set("concurrent_build_schedules", execs)
 	r.Set("concurrent_build_preemption_bound", 2)
 	r.Set("instrumentation", os.Getenv("VERIF_INSTR"))
+	noteDegraded(r)
 }
 
 func runC01(r *core.Run) {
